@@ -188,7 +188,9 @@ func genEvCase(rng *simrt.Rand, tier string, o evGenOpts) *Case {
 	// stall: one trigger round collects many windows / sessions and is held up handing them to a
 	// slow sink through an output buffer of 1; while it is stuck the watermark moves on (some
 	// cases: beyond the allowance) and late rows for the windows of that round arrive
-	stall := o.Stall && !burst && sp.AL > 0 && rng.Bool(0.2)
+	// (only with windows of at most a minute: the shape spans ~50 window sizes, and every generated
+	// timestamp has to stay well inside the 24 h future guard of the run's fake clock)
+	stall := o.Stall && !burst && sp.AL > 0 && sp.Size <= int64(time.Minute) && rng.Bool(0.25)
 	if stall {
 		n = 1 + rng.Intn(6)
 	}
